@@ -41,7 +41,10 @@ func init() {
 		Workers:     func(string) int { return 6 },
 		Race:        func(string) bool { return true },
 		CaseTimeout: 600,
-		Run:         runC20,
+		// a case normally takes seconds; one that has not ended after ten minutes is a lock-up under concurrency (the in-case
+		// detector below reports registry lock-ups with the goroutine dump long before that)
+		TimeoutIsViolation: true,
+		Run:                runC20,
 	})
 }
 
@@ -571,7 +574,19 @@ func c20History(c *fw.Case, kind string, clients, opsPerClient, procs int) {
 		}(cl)
 	}
 	close(gate)
-	wg.Wait()
+	finished := make(chan struct{})
+	go func() { wg.Wait(); close(finished) }()
+	select {
+	case <-finished:
+	case <-time.After(90 * time.Second):
+		// a history of a few hundred map operations takes milliseconds; after 90 s the clients are blocked for good
+		buf := make([]byte, 1<<20)
+		dump := string(buf[:runtime.Stack(buf, true)])
+		blocked := strings.Count(dump, "sync.(*RWMutex)") + strings.Count(dump, "sync.(*Mutex)")
+		c.Failf("registry-lock-up:"+kind, map[string]interface{}{"kind": kind, "clients": clients, "goroutines_blocked_on_a_lock": blocked, "goroutine_dump": firstLines(dump, 120)},
+			"concurrent registration / lookup on the %s did not finish within 90 s (%d goroutine frames blocked on a lock): lock-up", kind, blocked)
+		return
+	}
 	var hist []porcupine.Operation
 	for _, rc := range recs {
 		hist = append(hist, rc...)
